@@ -128,6 +128,8 @@ pub fn profile(prop: &str, rng: &mut Rng) -> Profile {
             p.big_payloads = false;
             p.purge_heavy = rng.chance(30);
             p.small_chunks_pct = 70;
+            // now and then a record larger than every internal buffer (64 KiB / 1 KiB)
+            p.huge_payloads = rng.chance(12);
         }
         "C14" => {
             p.nops = (8, 50);
@@ -243,7 +245,9 @@ pub fn analyse(prop: &str, spec: &Spec, out: &RunOut, thorough: bool, only: Opti
                 check_prefix: prop == "C03",
                 check_recoverable: prop == "C05",
                 nested: prop == "C05",
-                continuation: prop == "C05",
+                // C03: "never forgotten" must also hold after the recovered store went on writing and
+                // was restarted cleanly (sampled); C05 judges the same workload for usability
+                continuation: true,
                 max_images: if thorough { 4000 } else { 150 },
             };
             let only_c = match only {
